@@ -351,7 +351,7 @@ func (m *Machine) recordCrash(msg string) {
 		seenCrash[key] = true
 		x.pending = nil
 		_, model := x.checkSat("true")
-		violations = append(violations, Violation{Kind: "crash", Msg: key, Model: model, Trail: trailChoices(x), Values: replayValues(x, model)})
+		violations = append(violations, Violation{Kind: "crash", Msg: key, Par: x.usedPar, Model: model, Trail: trailChoices(x), Values: replayValues(x, model)})
 	}
 }
 
